@@ -63,6 +63,8 @@ TRow(a, col, dh) == <<Run(<<X, a, Y>>, 0, 0, 0, col, dh)>>
 TruthsX == {BaseG(25, dsc, TC0, <<Cue(<<0, 0, 1, 0>>, <<0, 0, 2, 0>>, vp, 2, rows)>>) :
               dsc \in {1, 2}, vp \in (IF Wide THEN {1, 2, 12, 20, 22, 23} ELSE {1, 20, 23}),
               rows \in {<<TRow(65, c, h)>> : c \in (IF Wide THEN -1..7 ELSE {-1, 3, 7}), h \in {0, 2}} \cup {<<TRow(65, c1, 0), TRow(66, c2, 2)>> : c1 \in {-1, 6}, c2 \in {-1, 1}}}
+           \* a blank display standard code (undefined): rows are not confined to a teletext page
+           \cup {BaseG(25, -1, TC0, <<Cue(<<0, 0, 1, 0>>, <<0, 0, 2, 0>>, vp, 2, <<TRow(65, -1, 0)>>)>>) : vp \in {0, 20, 30}}
 
 \* M: metadata
 MetaAll == [f \in {"opt", "oet", "tpt", "tet", "tn", "tcd", "slr", "pub", "en", "ecd", "co", "lang", "mnc", "mnr", "rn"} |->
@@ -74,7 +76,7 @@ Metas == {NoMeta, MetaAll, MetaFull, [f \in {"opt", "lang", "mnc", "mnr"} |-> IF
 TruthsM == {[fps |-> fps, dsc |-> dsc, tcp |-> TC0, meta |-> m,
              cues |-> <<Cue(<<0, 0, 1, 0>>, <<0, 0, 2, 0>>, 20, 2, <<IF dsc = 0 THEN <<PlainRun(<<X>>)>> ELSE TRow(65, -1, 0)>>),
                         Cue(<<0, 0, 3, 0>>, <<0, 0, 4, 12>>, 20, 1, <<IF dsc = 0 THEN <<PlainRun(<<Y>>)>> ELSE TRow(66, -1, 0)>>)>>] :
-              fps \in {25, 30}, dsc \in {0, 1}, m \in Metas}
+              fps \in {25, 30}, dsc \in {0, 1, -1}, m \in Metas}
 
 Truths(fam) == CASE fam = "T" -> TruthsTOK [] fam = "R" -> TruthsR \cup TruthsFull [] fam = "X" -> TruthsX [] fam = "M" -> TruthsM [] fam = "K" -> {p.g : p \in PairsK}
 Pairs(fam) == IF fam = "K" THEN PairsK ELSE UNION {{[g |-> t, d |-> D] : D \in Renderings(t)} : t \in Truths(fam)}
